@@ -85,6 +85,8 @@ pub fn expand(modules: &mut [(std::path::PathBuf, Vec<Declaration>)])
 	// declarations are never pub, hence they are not reexported.
 	// This would break if we had something like "pub use".
 	imports.retain(|(from, to)| from != to);
+	#[cfg(penne_verif)]
+	let imports = crate::verif::order_imports(imports);
 	for (offset_of_includer, offset_of_includee) in imports
 	{
 		let (_, declarations) = &modules[offset_of_includee];
